@@ -26,7 +26,12 @@ def main():
         if not f.exists():
             na.append({"property_id": pid, "reason": PENDING_REASON})
             continue
-        mod = importlib.import_module(f"tools.props.{pid}")
+        try:
+            mod = importlib.import_module(f"tools.props.{pid}")
+        except Exception as e:  # noqa: BLE001
+            print(f"{pid}: cannot import ({e}); listed as pending")
+            na.append({"property_id": pid, "reason": PENDING_REASON})
+            continue
         m = getattr(mod, "MANIFEST", None)
         if m is None:
             na.append({"property_id": pid, "reason": PENDING_REASON})
